@@ -260,7 +260,8 @@ class Dut:
 
     def run_real(self, history):
         """history: list of {port: value}. -> list of {'ports': {port: v}, 'state': {attr: v}} per cycle, error or None"""
-        sim = self.hw.getSimulator()
+        with contextlib.redirect_stdout(io.StringIO()):
+            sim = self.hw.getSimulator()
         out, err = [], None
         for cyc in history:
             for n, v in cyc.items():
